@@ -294,14 +294,19 @@ class Axis(GetSetDelAttrMixin, AbstractAxis):
         elif other.values.size == 0:
             return self
 
-        def _same_slope(a, b):
-            " both decreasing or both increasing "
-            return (a[-1]>=a[0])==(b[-1]>=b[0])
+        def _slope(a):
+            " +1 increasing, -1 decreasing, 0 undetermined (fewer than two labels are sorted both ways) "
+            if a.size < 2:
+                return 0
+            return 1 if a[-1] >= a[0] else -1
 
-        if consistent_kinds and self.is_monotonic() and other.is_monotonic() and _same_slope(self.values, other.values):
+        slope, slope_other = _slope(self.values), _slope(other.values)
+        same_slope = slope == 0 or slope_other == 0 or slope == slope_other
+
+        if consistent_kinds and self.is_monotonic() and other.is_monotonic() and same_slope:
             # join two sorted axes
             joined = np.union1d(self.values, other.values)
-            if self.values[-1] <= self.values[0]: # decreasing !
+            if (slope or slope_other) < 0: # decreasing !
                 joined = joined[::-1]
 
         else:
